@@ -104,17 +104,33 @@ def handle (c : Case) : Verdict :=
   let implRemoved := sortS (preIdx.filter fun i => !postIdxIds.contains i)
   let traceRemoved := sortS (trace.filterMap fun e => match e with | .removeIndex i => some i | _ => none)
   if implRemoved != traceRemoved then .differ "removed-vs-trace" s!"{implRemoved} {traceRemoved}" else
-  let m2 := repairIndex { r with idxs := r.idxs.reverse } readAll
-  let orderDep := sortS m.removed != sortS m2.removed
-  let mustGo := sortS (r.idxs.filter (fun f => (sortS m.removed).contains f.id && (sortS m2.removed).contains f.id) |>.map (·.id))
-  if !orderDep && sortS m.removed != implRemoved then
+  -- Which old index files survive depends on the order in which `Rewrite` happens to process
+  -- them (map iteration, worker pool) whenever two files share a pack group; the order is not
+  -- observable, so the comparison uses the order-independent consequences of the model:
+  let pl0 := plan r readAll
+  let ex := pl0.removePacks
+  let old := pl0.oldIdx
+  let grp (f : IdxFile) : IdxContent := groupsOf (f.content.getD []) ex
+  let mayKeep (f : IdxFile) : Bool :=
+    f.keepable && ((f.content.getD []).map (·.1)).all (fun p => !ex.contains p)
+  let shares (f g : IdxFile) : Bool := f.id != g.id && (grp f).any (fun x => (grp g).contains x)
+  let mustGo := sortS (pl0.obsolete0 ++ (old.filter (fun f => !mayKeep f)).map (·.id))
+  let implKept := old.filter fun f => !implRemoved.contains f.id
+  let ambiguous := old.any fun f => old.any fun g => shares f g
+  if !(mustGo.all implRemoved.contains) then
+    .differ "removed-index-files:must-go-kept" s!"dmg={dmg} must={mustGo} impl={implRemoved}" else
+  if !(implKept.all mayKeep) then
+    .differ "removed-index-files:kept-not-keepable" s!"dmg={dmg} impl={implRemoved}" else
+  if implKept.any (fun f => implKept.any fun g => shares f g) then
+    .differ "removed-index-files:kept-files-share-a-pack-group" s!"dmg={dmg} impl={implRemoved}" else
+  if (old.filter fun f => mayKeep f && implRemoved.contains f.id).any (fun f => !(old.any fun g => shares f g)) then
+    .differ "removed-index-files:up-to-date-file-removed" s!"dmg={dmg} impl={implRemoved}" else
+  if !ambiguous && sortS m.removed != implRemoved then
     .differ "removed-index-files" s!"dmg={dmg} model={sortS m.removed} impl={implRemoved}" else
-  if orderDep && !(mustGo.all implRemoved.contains) then
-    .differ "removed-index-files-bound" s!"dmg={dmg} must={mustGo} impl={implRemoved}" else
+  let orderDep := ambiguous
   let nSaves := (trace.filter fun e => match e with | .saveIndex _ => true | _ => false).length
   let mSaves := (m.trace.filter fun e => match e with | .saveIdx _ => true | _ => false).length
-  let mSaves2 := (m2.trace.filter fun e => match e with | .saveIdx _ => true | _ => false).length
-  if (nSaves == 0) != (mSaves == 0) && (!orderDep || (nSaves == 0) != (mSaves2 == 0)) then .differ "saves" s!"dmg={dmg} model={mSaves} impl={nSaves}" else
+  if !ambiguous && (nSaves == 0) != (mSaves == 0) then .differ "saves" s!"dmg={dmg} model={mSaves} impl={nSaves}" else
   let pl := plan r readAll
   let labels := dmg.eraseDups ++ [if readAll then "readall" else "default"] ++
     (if pl.toRead.isEmpty then [] else ["reread"]) ++
